@@ -602,8 +602,57 @@ def run_one(name):
             shutil.rmtree(tmp, ignore_errors=True)
 
 
+def breaking_under(args):
+    combo, patch = args
+    import subprocess
+    name = os.path.basename(os.path.dirname(patch))
+    pid = name.split('-')[0]
+    tmp = tempfile.mkdtemp(prefix='ttsa-rwm-')
+    try:
+        shutil.copytree(os.path.join(REPO, 'trees'), os.path.join(tmp, 'trees'), ignore=shutil.ignore_patterns('__pycache__'))
+        shutil.copy(os.path.join(REPO, 'treetools'), tmp)
+        with open(patch) as f:
+            if subprocess.run(['patch', '-p1', '-s', '-f', '-d', tmp], stdin=f, stdout=subprocess.DEVNULL,
+                              stderr=subprocess.DEVNULL).returncode != 0:
+                return name, None
+        import warnings
+        for fn in sorted(os.listdir(os.path.join(tmp, 'trees'))):
+            if fn.endswith('.py'):
+                pth = os.path.join(tmp, 'trees', fn)
+                with open(pth, encoding='utf-8') as fh:
+                    src = fh.read()
+                with warnings.catch_warnings():
+                    warnings.simplefilter('ignore')
+                    try:
+                        out = apply(combo, src)
+                        compile(out, fn, 'exec')
+                    except Exception:
+                        return name, None
+                with open(pth, 'w', encoding='utf-8') as fh:
+                    fh.write(out)
+        from ttsa.core import Program
+        import check
+        try:
+            obs, _, _, errors = check.evaluate(pid, 'quick', Program(repo=tmp), {})
+        except Exception:
+            return name, False
+        return name, any(not o.ok for o in obs)
+    finally:
+        shutil.rmtree(tmp, ignore_errors=True)
+
+
 def main():
     names = sys.argv[1:] or sorted(REWRITES)
+    if names and names[0] == '--breaking':
+        # `--breaking a+b+c`: every confirmed breaking change of seeded/, then the rewrites on top: is it still reported?
+        import glob
+        combo = names[1]
+        patches = sorted(glob.glob(os.path.join(os.path.dirname(HERE), 'seeded', 'C*-m*', 'patch.diff')))
+        with Pool(16) as pool:
+            res = pool.map(breaking_under, [(combo, p_) for p_ in patches])
+        fit = [(n_, h_) for n_, h_ in res if h_ is not None]
+        print('%s: %d breaking changes rewritten, %d reported by their own check' % (combo, len(fit), sum(1 for _, h_ in fit if h_)))
+        return 0
     if names and names[0] == '--combos':
         # `--combos K [seed]`: K random sequences of six different rewrites each
         import random
